@@ -724,6 +724,34 @@ def run(idx, rep, tier):
     r11(k)
     r12(k)
     r13(k)
+    from .c02 import compression_renewed
+    rep.rule('C11.R14', 'compression contexts are renewed at every NEWKEYS (= C02.R13): keeping the compressor when the re-negotiated algorithm is the same one leaves the sender deflating into a stream the peer has restarted')
+    compression_renewed(k, 'C11.R14')
+    rep.rule('C11.R15', 'every key exchange gets a handler object of its '
+             'own: kex.get_kex carries no caching decorator (lru_cache / '
+             'cache) and returns a constructor call, and _process_kexinit '
+             'stores its result in self._kex - a memoised handler would '
+             'bring its ephemeral key pair, group and counters of the '
+             'first exchange into every re-exchange (same K every time)')
+    _gk = k.func('kex.get_kex')
+    _decs = [dotted(d.func) if isinstance(d, ast.Call) else dotted(d)
+             for d in _gk.node.decorator_list]
+    rep.check(not any(d and ('cache' in d) for d in _decs), 'C11.R15',
+              key(_gk, 'handlers are not memoised'),
+              'no caching decorator on get_kex',
+              f'get_kex is decorated with {_decs}: each re-exchange on a '
+              'connection gets the first exchange\'s single-use handler '
+              'back - curve25519 re-exchanges reuse the same ephemeral key '
+              '(5 exchanges, 1 distinct K), group exchange dies with "Kex '
+              'DH group already requested"', _gk.loc(_gk.node))
+    _gg = k.cfg(_gk)
+    _rets = [n for n in _gg.nodes if n.kind == 'return']
+    rep.check(bool(_rets) and all(isinstance(n.ast.value, ast.Call)
+                                  for n in _rets), 'C11.R15',
+              key(_gk, 'handler constructed per call'),
+              'every return of get_kex is a constructor call',
+              'get_kex returns a stored object instead of constructing '
+              'a handler', _gk.loc(_gk.node))
     # R5: the keys taken into use after a re-exchange are the RFC 4253 §7.2
     # keys: = C02.R2 (compute_key hashes K, H, letter, session id in that
     # order; on the first exchange H == session id hides a swap)
